@@ -114,6 +114,14 @@ Defect(d) ==
             /\ links' = links \cup {L(cur.last, "+", Id(cnt), "+"), L(cur.last, "+", Id(cnt + 1), "+"), L(Id(cnt), "+", Id(cnt + 2), "+"),
                                     L(Id(cnt + 1), "+", Id(cnt + 2), "+"), L(Id(cnt + 1), "+", Id(cnt + 3), "+")}
             /\ cnt' = cnt + 4
+       [] d = "join" ->        \* joined to (a piece of) another chromosome through a haplotype node: y - z2 with z1 - z2 - z3 on contig chrZ
+            /\ nodes' = nodes \cup {RefNode(cnt, cur.name, cur.off), AltNode(cnt + 1, cur.name), RefNode(cnt + 2, cur.name, cur.off + 2),
+                                    [id |-> Id(cnt + 3), sn |-> "chrZ", so |-> 0, ln |-> 2, sr |-> 0], [id |-> Id(cnt + 4), sn |-> "chrZ", so |-> 2, ln |-> 2, sr |-> 0],
+                                    [id |-> Id(cnt + 5), sn |-> "chrZ", so |-> 4, ln |-> 2, sr |-> 0]}
+            /\ links' = links \cup {L(cur.last, "+", Id(cnt), "+"), L(cur.last, "+", Id(cnt + 1), "+"), L(Id(cnt), "+", Id(cnt + 2), "+"),
+                                    L(Id(cnt + 1), "+", Id(cnt + 2), "+"), L(Id(cnt + 1), "+", Id(cnt + 4), "+"),
+                                    L(Id(cnt + 3), "+", Id(cnt + 4), "+"), L(Id(cnt + 4), "+", Id(cnt + 5), "+")}
+            /\ cnt' = cnt + 6
        [] d = "cycle3" ->      \* three articulation points on one cycle without inner node: last, x, y pairwise linked, each with its own continuation
             /\ nodes' = nodes \cup {RefNode(cnt, cur.name, cur.off), RefNode(cnt + 1, cur.name, cur.off + 2), AltNode(cnt + 2, cur.name), AltNode(cnt + 3, cur.name)}
             /\ links' = links \cup {L(cur.last, "+", Id(cnt), "+"), L(Id(cnt), "+", Id(cnt + 1), "+"), L(cur.last, "+", Id(cnt + 1), "+"),
